@@ -7,6 +7,11 @@ package packagerender
 //@ func package-operator.run/internal/packages/internal/packagerender.RenderTemplates
 //@   loop 1 orderfree
 //@   loop 2 orderfree
+// every template file is parsed before the first one is executed (a definition in one file is visible to all others,
+// whatever order the file map is walked in)
+//@   after celTemplateFunction ghost tmplExecuted() := false
+//@   at ExecuteTemplate ghost tmplExecuted() := true
+//@   at Template).Parse assert [C13] !tmplExecuted()
 
 //@ func package-operator.run/internal/packages/internal/packagerender.parseObjects
 //@   at Unmarshal#1 assert [C13] len(obj.Object) == 0
